@@ -89,6 +89,7 @@ func registerAll() {
 	reg("L21", "raw CBOR heads are well formed: every EncodeRawBytes argument, evaluated to constant / run-time bytes (latest dominating write of each scratch position), parses as CBOR items whose first byte is a constant head announcing exactly the bytes that follow; run-time bytes only in announced payload positions; all-run-time chunks only as the announced payload (count * width) of a byte-string head", ruleL21)
 	reg("L22", "limit agreement between writer and reader: no decoder rejects an element / extra-data count that the encoders can write (two-byte count heads; extra-data indexes 0..maxInlinedExtraDataIndex), and each encoder refuses an extra-data index exactly when it exceeds maxInlinedExtraDataIndex", ruleL22)
 	reg("L20", "type-info references are resolved for every kind of inlined extra data: wherever the reference-resolving decoder is built, every callee handed a TypeInfoDecoder receives it (not the plain decoder)", ruleL20)
+	reg("S10", "every collected key is applied: in each commit entry point the collected owned keys (collector result, or the exact front/back regions of a local collector array - any other slice view of it is reported) are, on every success path, walked by a register-writing loop or helper, or fed to workers whose results are applied by a receive-and-write loop; paths on which the collection is known empty are exempt", ruleS10)
 	reg("G7", "shared global objects: every package-level variable that holds a reference is a sync.Pool, a function that captures nothing, a pointer to an in-package struct whose methods never write the receiver, or a slice/map that is only read; no method of another package's object is called through a global", ruleG7)
 	reg("G6", "arrival-independent outcome: no return inside a launcher's receive loop depends on the content of an individual worker result (which error is returned and what was applied before it must not depend on which worker finished first)", ruleG6)
 	reg("N5", "an outdated parent-updater never reads the former parent's slabs: the closure reaches slab storage only on the edge where an in-memory registry of the parent (keyed by the child's value id) still lists the child", ruleN5)
@@ -126,7 +127,7 @@ func registerAll() {
 	}
 	propTable["C03"] = &PropSpec{
 		ID:          "C03",
-		Rules:       []string{"R1", "R2", "R4", "S1", "S2", "S3", "S4", "S5"},
+		Rules:       []string{"R1", "R2", "R4", "S1", "S2", "S3", "S4", "S5", "S10"},
 		Explanation: "every slab mutated or created on a success path is stored or removed before the API call returns (typestate over slab objects with interprocedural summaries; re-keyed slabs need a later store; stores guarded by !inlined hand over to the notify-parent rule), every allocated id becomes a slab identity, every exported mutator notifies its parent; registers are written or deleted only by routines reachable exclusively through the commit entry points (call-graph closure over every exported/API function); Ledger.SetValue only inside the BaseStorage adapter; every collector of commit keys guards each key by address != AddressUndefined and records every owned key; every completed apply-loop iteration issues a register write; no register-write/encode/worker error is swallowed by a commit that returns nil.",
 		NotDecided:  "that the encoded content equals the in-memory content (C07), determinism (C04); batch builders are analysed with weak updates on their slab collections.",
 		Technique:   "call-graph reachability (who-may-write-registers) + " + tCFG,
@@ -140,7 +141,7 @@ func registerAll() {
 	}
 	propTable["C15"] = &PropSpec{
 		ID:          "C15",
-		Rules:       []string{"S1", "S2", "S3", "S7", "S8", "S9"},
+		Rules:       []string{"S1", "S2", "S3", "S7", "S8", "S9", "S10"},
 		Explanation: "layering of the write-back overlay: lookups consult write set, then read cache (only on the write-set miss edge), then ledger (only on the cache miss edge) and a hit returns the found entry; cache fills are guarded by the cache flag and hold DecodeSlab of the same id; a frozen ownership table says which routine may update / delete / replace each field of PersistentSlabStorage (Store/Remove add to deltas, only register-writing routines retire entries, only DropDeltas/DropCache replace a map, BatchPreload fills only the cache and pre-sizes it only when empty); commit moves an entry to the cache (nil after Remove, the write-set object after Store) and deletes it only on the success edge; temp-address ids never reach a register call; every exported observer is unable to reach a writer of the write set or of registers.",
 		NotDecided:  "the value-level state-machine closure (that the sequence of views equals the model for every history).",
 		Technique:   "field-write ownership table + dominance of lookups + call-graph reachability for observers + " + tCFG,
@@ -189,7 +190,7 @@ func registerAll() {
 	}
 	propTable["C09"] = &PropSpec{
 		ID:          "C09",
-		Rules:       []string{"R1", "R2", "R3", "R7", "N2", "N4", "X2", "X1", "N5", "K3", "S3", "S4"},
+		Rules:       []string{"R1", "R2", "R3", "R7", "N2", "N4", "X2", "X1", "N5", "K3", "S3", "S4", "S10"},
 		Explanation: "every new or modified slab is stored, every allocated id becomes a slab identity, every detach event (merge, bulk pop of children, inline, root promotion, external collision group collapse/pop) removes the register and uninline stores it, on every success path; every Storable handed back by an exported Array/OrderedMap method went through uninlineStorableIfNeeded (a detached inlined child becomes a stored standalone slab the caller can dispose of); every field of a slab/element type that can hold a slab reference is read by the ChildStorables call graph (so references are enumerable and removable), with sibling links and own ids exempt by table; every slab/element kind is handled by every family type switch. A detached child's parent-updater writes into its former parent only after its identity (value id: address and index) was confirmed for the slot: otherwise a stale handle evicts a live value that is never handed back (leaked slabs). An element overwritten with the very container it already holds is recognised before the overwritten storable is uninlined (otherwise the slab just stored as the new element is un-inlined under the parent). A key is materialised (possibly as a separate slab) only where no stored key was found equal to it, so an update never orphans the stored key's slab. A pending removal leaves the write set only after the register deletion was issued and succeeded, and no commit iteration skips an entry (a consumed tombstone without a ledger delete leaves an unreachable register behind).",
 		NotDecided:  "'referenced exactly once' and owner equality (facts about runtime id values).",
 		Technique:   "value-flow on return operands, field-read coverage over the ChildStorables call graph, type-switch exhaustiveness over closed families",
@@ -238,7 +239,7 @@ func registerAll() {
 	}
 	propTable["C14"] = &PropSpec{
 		ID:          "C14",
-		Rules:       []string{"S3", "S4", "S5", "S2"},
+		Rules:       []string{"S3", "S4", "S5", "S2", "S10"},
 		Explanation: "Structural necessary conditions of 'a failed commit loses nothing': in every function that writes registers, a write-set entry is deleted (and the cache updated) only on the err==nil edge of the BaseStorage write of the same id on all paths; each completed apply-loop iteration issues a write; every error of a register write, of EncodeSlab and of a worker result surfaces as a non-nil returned error with no storage-map or register write after it. Both commits collect only owned identifiers (the temporary-address filter), so the order-relaxed commit and its retries converge to the registers of the deterministic one.",
 		NotDecided:  "byte-identity of the ledger after retries (depends on encode determinism, C04/C07) and behaviour of the client BaseStorage.",
 		Technique:   "CFG path rules on go/ssa: must-precede / edge-dominance of delete(deltas) by the nil-error edge of the register write, loop-iteration coverage, error-edge reachability",
